@@ -289,10 +289,31 @@ def r04e(R):
         # result is the neighbour at pos (next) / pos-1 (prev), None at the end
         rets = [norm(n.value) for n in walk_own(m.node)
                 if isinstance(n, ast.Return) and n.value is not None]
-        if name == 'next':
-            ok = any('self[pos]' in r and 'len(self)' in r for r in rets)
-        else:
-            ok = any('self[pos - 1]' in r and 'pos == 0' in r for r in rets)
+        posv = [norm(n.targets[0]) for n in walk_own(m.node)
+                if isinstance(n, ast.Assign) and isinstance(n.value, ast.Call)
+                and norm(n.value.func).startswith('bisect.')]
+        pos = posv[0] if posv else 'pos'
+        ok = False
+        for n in walk_own(m.node):
+            if not (isinstance(n, ast.Return) and isinstance(n.value, ast.IfExp)):
+                continue
+            ie = n.value
+            test, a, b = ie.test, ie.body, ie.orelse
+            if not (isinstance(test, ast.Compare) and len(test.ops) == 1):
+                continue
+            if isinstance(test.ops[0], ast.NotEq):
+                a, b = b, a             # normalise to: <end> if <at end> else <neighbour>
+            elif not isinstance(test.ops[0], ast.Eq):
+                continue
+            at_end = norm(test).replace('!=', '==').replace(' ', '')
+            end_is_none = isinstance(a, ast.Constant) and a.value is None
+            if name == 'next':
+                ok = end_is_none and at_end in ('%s==len(self)' % pos,
+                                                'len(self)==%s' % pos) \
+                    and norm(b) == 'self[%s]' % pos
+            else:
+                ok = end_is_none and at_end in ('%s==0' % pos, '0==%s' % pos) \
+                    and norm(b).replace(' ', '') == 'self[%s-1]' % pos
         R.check(m, 'returns neighbour or None at the end', ok,
                 'SortedList.%s does not return the adjacent element / None at '
                 'the end of the list' % name)
